@@ -274,6 +274,69 @@ def check_one_engine_for_all_sessions(ctx):
                           'a session is started with %s instead of the one engine the server holds (self.%s)' % (U(a0) if a0 is not None else 'no engine', field))
     ctx.count('session_construction_sites', n, 1)
 
+MUTATORS = ('append', 'extend', 'insert', 'update', 'add', 'pop', 'popitem', 'remove', 'discard', 'clear', 'setdefault', 'sort', 'reverse')
+
+
+def check_nothing_handed_out_is_updated_in_place(ctx, m):
+    """C10.R6: what an entry point returns to the session thread is not an engine-owned object that later requests update in place."""
+    ctx.rule('C10.R6', 'the session thread uses what process_request / build_error_response returned after the engine lock is released (encoding the response, choosing the encoding version): no engine field that flows into a returned value or into the response object is updated in place anywhere in the engine (`self.<f>.<attr> = v`, `self.<f>[k] = v`, augmented forms, mutating calls): the next request would change the object under the session that is still encoding. Rebinding the field to a fresh object per request is fine')
+    entries = [n for n in ('process_request', 'build_error_response') if n in m.methods]
+    ctx.need(bool(entries), 'anchor vanished: KmipEngine.process_request')
+    from ..inline import flat_methods
+    cls = get_class(ctx.src.tree(ENGINE), 'KmipEngine')
+    fm = flat_methods(cls)[0]
+    escaping = {}
+    n_exprs = 0
+    for name in entries:
+        fn = fm.get(name, m.methods[name])
+        g = CFG(fn)
+        rd = ReachingDefs(g)
+        out = []
+        for n in g.nodes:
+            if n.kind == 'stmt' and isinstance(n.stmt, ast.Return) and n.stmt.value is not None:
+                out += [(n, e) for e in (n.stmt.value.elts if isinstance(n.stmt.value, ast.Tuple) else [n.stmt.value])]
+        seen = set()
+        work = list(out)
+        while work:
+            node, e = work.pop()
+            if id(e) in seen:
+                continue
+            seen.add(id(e))
+            n_exprs += 1
+            for x in ast.walk(e):
+                if is_self_attr(x) and isinstance(x.ctx, ast.Load) and x.attr not in m.methods and x.attr not in fm:
+                    escaping.setdefault(x.attr, (name, x))
+                elif isinstance(x, ast.Name):
+                    for v in rd.values(node, x.id):
+                        if isinstance(v, ast.AST):
+                            dn = None
+                            for _v, d, dnn in rd.reaching(node, x.id):
+                                if d is v:
+                                    dn = dnn
+                            if dn is not None:
+                                work.append((dn, v))
+    ctx.count('expressions_flowing_into_returned_values', n_exprs, 3)
+    # services (logger, crypto engine, factories) are not data of a request; the stores of interest are field-of-field stores
+    for f, (name, x) in sorted(escaping.items()):
+        sites = []
+        for mn, fn in sorted(fm.items()):
+            for y in walk_local(fn):
+                tgt = None
+                if isinstance(y, (ast.Attribute, ast.Subscript)) and isinstance(y.ctx, (ast.Store, ast.Del)) and is_self_attr(y.value, f):
+                    tgt = y
+                elif isinstance(y, ast.Call) and isinstance(y.func, ast.Attribute) and y.func.attr in MUTATORS and is_self_attr(y.func.value, f):
+                    tgt = y
+                elif isinstance(y, ast.Call) and call_name(y) in ('setattr', 'delattr') and y.args and is_self_attr(y.args[0], f):
+                    tgt = y
+                if tgt is not None:
+                    sites.append((mn, tgt))
+        ctx.check(not sites, 'C10.R6', 'KmipEngine.%s|handed out by %s and updated in place' % (f, name), '%s:%s KmipEngine.%s' % (ENGINE, (sites[0][1].lineno if sites else x.lineno), sites[0][0] if sites else name),
+                  'self.%s flows into what %s returns and is only ever rebound' % (f, name),
+                  'self.%s flows into what %s returns to the session thread, and %s updates that object in place (%s): a request of another session, served before this session has encoded its response, changes the object under it' % (
+                      f, name, sites[0][0] if sites else '', ' '.join(U(sites[0][1]).split())[:60] if sites else ''))
+    ctx.analysed['engine_fields_flowing_into_returned_values'] = sorted(escaping)
+
+
 def run(ctx):
     src = ctx.src
     m = EngineModel(src)
@@ -454,6 +517,7 @@ def run(ctx):
               'response, size limit and version are taken from the locked call result: %s' % names,
               'process_request result is not unpacked into (response, max size, version)')
     check_one_engine_for_all_sessions(ctx)
+    check_nothing_handed_out_is_updated_in_place(ctx, m)
     ctx.not_decided += ["SQLite/SQLAlchemy thread-safety with check_same_thread=False (single writer under the lock is assumed)",
                         "fairness/ordering of lock acquisition between sessions"]
     ctx.assumptions += ["threading.RLock is a mutual-exclusion lock", "no monkey-patching of KmipEngine at run time",
